@@ -231,29 +231,53 @@ def consumeOld := consumeWith allocOld
 
 Each clause names the code that establishes it. Combinations outside `Valid` are not produced for
 any input (and several make the writer refuse the resolution with a user-level error). -/
-def Valid (r : Res) : Bool :=
+-- The clauses are grouped in five stages by the fields they read, so that the exhaustive proof in
+-- `Props/C23.lean` can discard impossible prefixes early.
+
+/-- reads `ifunc dyn abs tlsOff tlsMod tlsDesc` -/
+def stage1 (r : Res) : Bool :=
+  let f := r.f
+  -- IFUNC is a property of a definition in a regular object: never dynamic, absolute or thread-local
+  (!f.ifunc || (!f.dyn && !f.abs && !f.isTls))
+
+/-- additionally reads `got plt` -/
+def stage2 (r : Res) : Bool :=
   let f := r.f
   -- `resolution_flags` hands out PLT only together with GOT; the ifunc arms of `process_relocation` add both
   (!f.plt || f.got)
+  -- thread-local symbols are reached through the TLS GOT forms only
+  && (!f.isTls || (!f.got && !f.plt))
+
+/-- additionally reads `ifuncGot kind` -/
+def stage3 (r : Res) : Bool :=
+  let f := r.f
   -- IFUNC_GOT_FOR_ADDRESS: `flags.is_ifunc() && relocation_needs_got && !output_kind.is_relocatable()`, after GOT|PLT were added
-  && (!f.ifuncGot || (f.ifunc && f.got && f.plt && !r.kind.isRelocatable))
-  -- IFUNC is a property of a definition in a regular object: never dynamic, absolute or thread-local
-  && (!f.ifunc || (!f.dyn && !f.abs && !f.isTls))
-  -- symbols of shared objects / runtime-resolved weak undefineds exist only in outputs with a dynamic symbol table, and are interposable
-  && (!f.dyn || (r.kind.needsDynsym && !r.kind.isStaticExecutable && !f.nonInterp))
+  (!f.ifuncGot || (f.ifunc && f.got && f.plt && !r.kind.isRelocatable))
+  -- symbols of shared objects / runtime-resolved weak undefineds exist only in outputs with a real dynamic symbol table
+  && (!f.dyn || (r.kind.needsDynsym && !r.kind.isStaticExecutable))
+  -- TLSDESC against a static executable is relaxed away by `new_relaxation` (else: user-level error)
+  && (!f.tlsDesc || !r.kind.isStaticExecutable)
+
+/-- additionally reads `nonInterp exportDyn` -/
+def stage4 (r : Res) : Bool :=
+  let f := r.f
+  -- dynamic symbols are interposable
+  (!f.dyn || !f.nonInterp)
   -- EXPORT_DYNAMIC is set (next to `export_dynamic()`) only when there is a dynamic symbol table to export into
   && (!f.exportDyn || (r.kind.needsDynsym && !r.kind.isStaticExecutable))
   -- every interposable symbol has a dynamic symbol (`is_symbol_non_interposable`: everything is non-interposable in static executables)
   && (f.nonInterp || f.dyn || f.exportDyn)
+
+/-- additionally reads `dynIdx rawZero` -/
+def stage5 (r : Res) : Bool :=
+  let f := r.f
   -- `dynamic_symbol_index` is assigned exactly to DYNAMIC symbols and to `dynamic_symbol_definitions` (pushed next to EXPORT_DYNAMIC)
-  && (r.dynIdx == (f.dyn || f.exportDyn))
-  -- thread-local symbols are reached through the TLS GOT forms only
-  && (!f.isTls || (!f.got && !f.plt))
-  -- a TLS symbol without dynamic symbol that is not an address is an undefined weak: `res.address()?` refuses GD for it
+  (r.dynIdx == (f.dyn || f.exportDyn))
+  -- a TLS symbol without usable dynamic symbol that is not an address is an undefined weak: `res.address()?` refuses GD for it
   && (!f.tlsMod || (r.dynIdx && (f.isInterposable || f.dyn)) || f.isAddress)
-  -- TLSDESC against a static executable is relaxed away by `new_relaxation` (else: user-level error)
-  && (!f.tlsDesc || !r.kind.isStaticExecutable)
-  -- value 0 ⇔ undefined (absolute) for symbols resolved at link time
+  -- value 0 ⇔ undefined (absolute) for thread-local symbols resolved at link time
   && (f.dyn || (r.rawZero == f.abs) || !f.isTls)
+
+def Valid (r : Res) : Bool := stage1 r && stage2 r && stage3 r && stage4 r && stage5 r
 
 end Wild.Alloc
